@@ -1,16 +1,23 @@
 #!/bin/bash
 # usage: tools/seedtest.sh <patch.diff> Cnn [Cmm ...]
-# Applies the patch to a scratch worktree of /repo, runs the quick checks against it, cleans up.
+# Applies the patch to a scratch worktree of /repo, runs the quick checks of a SNAPSHOT of /verif
+# (so that concurrent edits of /verif do not disturb the run) against it, cleans up.
 set -u
 patch=$(realpath "$1"); shift
 wt=/var/tmp/seedtest-$$
+snap=/var/tmp/svsnap-$$
 git -C /repo worktree add -q "$wt" HEAD || exit 2
 if ! git -C "$wt" apply "$patch"; then echo "PATCH DOES NOT APPLY"; git -C /repo worktree remove --force "$wt"; exit 2; fi
-cd /verif
+mkdir -p "$snap"
+rsync -a --exclude '.git' --exclude '.cache/cargo*' --exclude '.cache/harness*' --exclude '.cache/run' --exclude '.cache/derive-gen' /verif/ "$snap"/
+cd "$snap"
 for pid in "$@"; do
   out=$(VERIF_REPO="$wt" ./sv check "$pid" --tier quick 2>/dev/null); rc=$?
   echo "== $pid rc=$rc $(echo "$out" | grep -E 'VIOLATION|KNOWN' | head -3)"
+  for f in $(echo "$out" | grep -o 'replay=[^ ]*' | sed 's/replay=//'); do
+    [ -f "$snap/$f" ] && python3 -c "import json,sys; d=json.load(open('$snap/$f')); print('   what:', d.get('what')); print('   hist:', (d.get('history') or '')[:300]); print('   fail:', str(d.get('failing'))[:300])"
+  done
 done
-tag=$(echo "$wt" | sed 's/[^A-Za-z0-9]/_/g')
-rm -rf "/verif/.cache/cargo$tag" "/verif/.cache/harness$tag"
+cd /
+rm -rf "$snap"
 git -C /repo worktree remove --force "$wt"
